@@ -34,3 +34,10 @@ extern uint32_t symx_terminated;
 #endif
 static inline uint32_t u32(int32_t x) { return (uint32_t) x; }
 static inline int32_t i32(uint32_t x) { return (int32_t) x; }
+/* stub for a C++-mangled library function: under CBMC it is the C function `cname` (ll2c redirects calls of `mangled`
+   to it); natively it is emitted under the mangled symbol so that it overrides the weakened library definition */
+#ifdef SYMX_NATIVE
+#define STUB_CXX(ret, cname, mangled, args) extern "C" ret cname args __asm__(mangled); extern "C" ret cname args
+#else
+#define STUB_CXX(ret, cname, mangled, args) extern "C" ret cname args
+#endif
